@@ -18,7 +18,9 @@ RULE = ("a scenario is one abstract input (phased multi-sample VCF over 1-2 chro
         "phase set exchanged in the VCF). 'gen' scenarios bundle TLC-enumerated call patterns x name-group shapes "
         "(Gen_C10: every pattern over 3 sites/2 sets for ploidy 2, 2 sites for ploidy 3, every single/pair shape with "
         "every observed allele vector); 'rand' scenarios are seeded larger worlds (indels, read groups, BX clouds, "
-        "--regions, stale tags, ploidy 2-4); 'hazard' scenarios are five small input classes inside the statement that "
+        "--regions, stale tags, ploidy 2-4); 'bxmol' scenarios put one barcode on several molecules of a chromosome with a small "
+        "--linked-read-distance-cutoff (140/240 bp): reads of a molecule start within half the cutoff (joint decision), molecules "
+        "farther apart than the cutoff (separate decisions), different haplotypes / phase sets, varying evidence; 'hazard' scenarios are five small input classes inside the statement that "
         "exposed defects of the code as of round 1 (mates on opposite strands: repaired by a5fcdae; alignment overlapping two "
         "regions; stale tags on an unplaced unmapped read; barcode cloud touching two phase sets with equal scores; one barcode "
         "in two samples). A scenario is non-trivial if the run succeeded and its output has "
@@ -31,6 +33,9 @@ ASSUMPTIONS = [
     "'its read' = all alignments of one name and sample (with linked reads: one barcode) that pass whatshap's fixed read filter "
     "(mapped, not secondary/supplementary, MAPQ >= 20, duplicates included); each site is observed by at most one of them",
     "read names are unique across samples, barcodes are unique per read group, a name has at most two primary lines",
+    "barcode clouds are well separated (clause Premise): alignments of one barcode start within half the cutoff or farther apart "
+    "than the cutoff; for chains of reads each within the cutoff of the next only, the command's grouping depends on the visiting "
+    "order, the statement does not fix it and such inputs are not generated",
     "--regions are given in ascending order and are disjoint; PC is exempt from Conservation and its value is not judged",
     "TLC evaluates the definitions of Haplotag.tla correctly; pysam/htslib parse the BAM files",
 ]
@@ -314,6 +319,73 @@ def _rand_scenario(rng, ploidy):
     return sc
 
 
+def _bx_scenario(rng):
+    """One barcode on several molecules of a chromosome.  With the cutoff C (140 or 240 bp) and sites every 50 bp the reads of
+    one molecule start at most C/2 apart (site distance <= dclose: decided jointly), the molecules of one barcode start
+    farther apart than C (site distance >= dfar: decided separately); the molecules copy different haplotypes, lie in the
+    same or in different phase sets and carry varying amounts of evidence (1-3 names, 1-3 sites each, optional wrong allele)."""
+    mode = rng.choice(["ref", "noref"])
+    C, dclose, dfar = rng.choice([(140, 1, 4), (240, 2, 6)])
+    two = rng.random() < 0.3
+    samples = ["s1", "s2"] if two else ["s1"]
+    rgs = [["g1", "s1"], ["g2", "s2"]] if two else [["g1", "s1"], ["g2", "s1"]]
+    K = rng.randint(10, 13)
+    kinds = _site_kinds(rng, K, mode)
+    sites = []
+    split = [rng.choice([0, rng.randint(3, K - 3)]) for _ in samples]
+    for j in range(K):
+        calls = []
+        for si in range(len(samples)):
+            if rng.random() < 0.1:
+                calls.append({"ps": 0, "al": [0, 1]})
+            else:
+                calls.append({"ps": 100 if (split[si] == 0 or j < split[si]) else 200, "al": rng.choice([[0, 1], [1, 0]])})
+        sites.append(dict(kinds[j], calls=calls))
+    groups = []
+    for b in range(rng.randint(6, 12)):
+        rg = rng.randint(1, len(rgs))
+        si = samples.index(rgs[rg - 1][1])
+        nm = rng.choice([1, 2, 2, 2, 3])
+        L = rng.randint(1, 2)
+        h = rng.randrange(2)
+        for m in range(nm):
+            if L + dclose > K:
+                break
+            for _ in range(rng.randint(1, 3)):
+                lo = rng.randint(L, min(K, L + dclose))
+                hi = min(K, lo + rng.randint(0, 2))
+                al = [sites[j - 1]["calls"][si]["al"][h] for j in range(lo, hi + 1)]
+                if rng.random() < 0.3:
+                    k = rng.randrange(len(al))
+                    al[k] = 1 - al[k]
+                alns = [{"chrom": 0, "kind": "prim", "lo": lo, "hi": hi, "al": al, "third": [], "rev": rng.random() < 0.5,
+                         "stale": _stale(rng, 0.1)}]
+                if hi == lo and lo + 1 <= min(K, L + dclose) and rng.random() < 0.3:
+                    # a mate starting inside the same molecule
+                    lo2 = lo + 1
+                    hi2 = min(K, lo2 + rng.randint(0, 1))
+                    alns.append({"chrom": 0, "kind": "prim", "lo": lo2, "hi": hi2, "al": [sites[j - 1]["calls"][si]["al"][h] for j in range(lo2, hi2 + 1)],
+                                 "third": [], "rev": rng.random() < 0.5, "stale": None})
+                groups.append({"rg": rg, "bx": b + 1, "alns": alns})
+            L = L + dclose + dfar + rng.randint(0, 1)
+            if rng.random() < 0.8:
+                h = 1 - h
+    for _ in range(rng.randint(2, 8)):          # reads without barcode
+        lo = rng.randint(1, K)
+        hi = min(K, lo + rng.randint(0, 2))
+        h = rng.randrange(2)
+        groups.append({"rg": 1, "bx": 0, "alns": [{"chrom": 0, "kind": rng.choice(["prim", "prim", "dup", "sup"]), "lo": lo, "hi": hi,
+                                                  "al": [sites[j - 1]["calls"][0]["al"][h] for j in range(lo, hi + 1)], "third": [],
+                                                  "rev": rng.random() < 0.5, "stale": _stale(rng)}]})
+    rng.shuffle(groups)
+    opts = {"tag_supp": rng.random() < 0.5, "ignore_rg": False, "linked": rng.random() < 0.85, "cutoff": C, "given": None,
+            "regions": None, "list": False}
+    sc = {"kind": "bxmol", "seed": rng.randrange(1 << 30), "ploidy": 2, "mode": mode, "samples": samples, "rgs": rgs,
+          "opts": opts, "chroms": [{"sites": sites}], "groups": groups, "swap": None}
+    _pick_swap(rng, sc)
+    return sc
+
+
 def _split_multiset_clouds(chroms, groups, ns):
     """A barcode cloud of several names that touches two phase sets with equal top scores is the hazard class bx_tie
     (the reported set then depends on object addresses); the other scenarios keep such clouds inside one phase set."""
@@ -405,6 +477,8 @@ def scenarios(ctx):
     nrand = 120 if q else 1500
     for i in range(nrand):
         scs.append(_rand_scenario(rng, 2 if i % 4 else rng.choice([3, 4])))
+    for i in range(60 if q else 600):
+        scs.append(_bx_scenario(rng))
     import sys
     # the hazard classes fail on the unchanged code; they are left out where a failure must mean something else
     # (mutation runs, and --selftest whose corrupted trace must be the only reason for a rejection)
@@ -724,7 +798,8 @@ def drive(sc):
                             al = al[::-1]
                         row.append({"ph": c["ps"] > 0, "ps": c["ps"], "al": al})
                 phase.append(row)
-            return {"ploidy": sc["ploidy"], "tagSupp": opts["tag_supp"], "linked": opts["linked"], "ignoreRG": opts["ignore_rg"],
+            return {"ploidy": sc["ploidy"], "tagSupp": opts["tag_supp"], "linked": opts["linked"], "cutoff": opts.get("cutoff", 50000),
+                    "ignoreRG": opts["ignore_rg"],
                     "onlySample": only, "rgSample": rgsample, "sites": m["sites"], "phase": phase, "regions": absregions,
                     "aln": [{k: v for k, v in a.items() if k != "stale"} for a in aln]}
 
@@ -738,6 +813,7 @@ def drive(sc):
                 run_haplotag(variant_file=vcf, alignment_file=m["bam"], output=outp,
                              reference=m["fasta"] if sc["mode"] == "ref" else False,
                              regions=list(regions) if regions else None, ignore_linked_read=not opts["linked"],
+                             linked_read_distance_cutoff=opts.get("cutoff", 50000),
                              given_samples=list(given) if given else None, ignore_read_groups=opts["ignore_rg"],
                              haplotag_list=os.path.join(d, f"list{ri}.tsv") if opts["list"] else None,
                              tag_supplementary=opts["tag_supp"], ploidy=sc["ploidy"])
@@ -780,6 +856,9 @@ def _hazards(W, nstale_unplaced):
     if nstale_unplaced:
         hz.append("stale-tags-on-unplaced-unmapped-read")
     if W["linked"]:
+        cut = W.get("cutoff", 50000)
+        cloud_start = lambda a: min(b["pos"] for b in W["aln"] if b["bx"] == a["bx"] and b["chrom"] == a["chrom"]
+                                    and abs(b["pos"] - a["pos"]) <= cut)
         clouds = {}
         for a in W["aln"]:
             s = smp(a)
@@ -787,7 +866,7 @@ def _hazards(W, nstale_unplaced):
                 for o in a["obs"]:
                     c = W["phase"][s - 1][o[0] - 1]
                     if c["ph"] and len(set(c["al"])) > 1:
-                        clouds.setdefault((s, a["bx"]), {}).setdefault((W["sites"][o[0] - 1]["chrom"], c["ps"]), set()).add(a["name"])
+                        clouds.setdefault((s, a["bx"], a["chrom"], cloud_start(a)), {}).setdefault((W["sites"][o[0] - 1]["chrom"], c["ps"]), set()).add(a["name"])
         if any(len(sets) > 1 and len(set().union(*sets.values())) > 1 for sets in clouds.values()):
             hz.append("barcode-cloud-of-several-names-touching-two-phase-sets")
         owner = {}
